@@ -217,6 +217,171 @@ func (c15Mon) End(w *mc.World) {
 	}
 }
 
+// refValueInvalid reports whether a RES value is clearly invalid by the
+// protocol: an array, an object that is neither reference, action nor data
+// value, an unknown action, an empty or malformed rid, or an ambiguous mix.
+func refValueInvalid(raw json.RawMessage, allowDelete bool) bool {
+	t := strings.TrimSpace(string(raw))
+	if t == "" {
+		return true
+	}
+	if t[0] == '[' {
+		return true
+	}
+	if t[0] != '{' {
+		return false
+	}
+	var o map[string]json.RawMessage
+	if json.Unmarshal(raw, &o) != nil {
+		return true
+	}
+	_, hasRID := o["rid"]
+	_, hasAct := o["action"]
+	_, hasData := o["data"]
+	n := 0
+	for _, b := range []bool{hasRID, hasAct, hasData} {
+		if b {
+			n++
+		}
+	}
+	if n != 1 {
+		return true
+	}
+	if hasRID {
+		var rid string
+		if json.Unmarshal(o["rid"], &rid) != nil {
+			return true
+		}
+		if _, _, ok := refRID(rid); !ok {
+			return true
+		}
+		if sv, ok := o["soft"]; ok {
+			var b bool
+			if json.Unmarshal(sv, &b) != nil {
+				return true
+			}
+		}
+	}
+	if hasAct {
+		var a string
+		if json.Unmarshal(o["action"], &a) != nil || a != "delete" || !allowDelete {
+			return true
+		}
+	}
+	return false
+}
+
+// refEventInvalid reports whether an injected change/add/remove event is
+// clearly invalid and therefore has to be discarded as a whole. judged is
+// false for payload shapes the reference does not judge (e.g. legacy forms).
+func refEventInvalid(kind, payload string, collLen int) (invalid, judged bool) {
+	var o map[string]json.RawMessage
+	if json.Unmarshal([]byte(payload), &o) != nil {
+		return false, false
+	}
+	switch kind {
+	case "ev-change":
+		if len(o) != 1 {
+			return false, false
+		}
+		var vals map[string]json.RawMessage
+		if v, ok := o["values"]; !ok || json.Unmarshal(v, &vals) != nil || vals == nil {
+			return false, false
+		}
+		for _, v := range vals {
+			if refValueInvalid(v, true) {
+				return true, true
+			}
+		}
+		return false, true
+	case "ev-add":
+		var idx *int
+		if v, ok := o["idx"]; ok {
+			if json.Unmarshal(v, &idx) != nil {
+				return true, true
+			}
+		}
+		if idx == nil || *idx < 0 || *idx > collLen {
+			return true, true
+		}
+		v, ok := o["value"]
+		if !ok || refValueInvalid(v, false) {
+			return true, true
+		}
+		return false, true
+	case "ev-remove":
+		var idx *int
+		if v, ok := o["idx"]; ok {
+			if json.Unmarshal(v, &idx) != nil {
+				return true, true
+			}
+		}
+		if idx == nil || *idx < 0 || *idx >= collLen {
+			return true, true
+		}
+		return false, true
+	}
+	return false, false
+}
+
+// c15Window checks that a clearly invalid event leaves the cached resource
+// unchanged and reaches no client: the cache and the client's frames are
+// compared between the injection and the first probe event.
+type c15Window struct {
+	kind, payload string
+	pre           map[string]string
+	preFrames     int
+	done          bool
+}
+
+func (m *c15Window) cacheValues(w *mc.World) map[string]string {
+	out := map[string]string{}
+	for _, e := range w.CacheSnaps() {
+		for _, r := range e.Resources {
+			if r.Query == "" && r.State >= 3 {
+				out[e.Name] = mc.CanonJSON([]byte(r.Value))
+			}
+		}
+	}
+	return out
+}
+
+func (m *c15Window) Step(w *mc.World, action string) {
+	if m.done {
+		return
+	}
+	if strings.HasSuffix(action, ":inject") {
+		m.pre = m.cacheValues(w)
+		m.preFrames = len(w.Conns[0].Frames)
+		return
+	}
+	if m.pre != nil && strings.HasSuffix(action, ":m.probe") {
+		m.done = true
+		if m.kind == "ev-change-2" {
+			m.kind = "ev-change"
+		}
+		target := map[string]string{"ev-change": "test.m", "ev-add": "test.c", "ev-remove": "test.c"}[m.kind]
+		if target == "" {
+			return
+		}
+		invalid, judged := refEventInvalid(m.kind, m.payload, 3)
+		if !judged || !invalid {
+			return
+		}
+		post := m.cacheValues(w)
+		if m.pre[target] != "" && post[target] != m.pre[target] {
+			w.Fail("C15", "invalid-message-applied", "the injected %s event is invalid but the cached %s changed from %s to %s", m.kind[3:], target, m.pre[target], post[target])
+		}
+		for _, f := range w.Conns[0].Frames[m.preFrames:] {
+			if strings.Contains(string(f), `"event":"`+target+`.`) {
+				w.Fail("C15", "invalid-message-forwarded", "the injected %s event is invalid but the client was sent %s", m.kind[3:], f)
+			}
+		}
+	}
+}
+
+func (m *c15Window) End(*mc.World) {}
+
 type c15Case struct {
 	kind    string
 	payload string
@@ -226,7 +391,7 @@ type c15Case struct {
 func c15Scenario(kind, payload string, pos int) *mc.Scenario {
 	inject := func(w *mc.World) {
 		switch kind {
-		case "ev-change":
+		case "ev-change", "ev-change-2":
 			w.MQ.Publish("event.test.m.change", []byte(payload))
 		case "ev-change-on-collection":
 			w.MQ.Publish("event.test.c.change", []byte(payload))
@@ -355,7 +520,7 @@ func c15Scenario(kind, payload string, pos int) *mc.Scenario {
 			return nil
 		},
 		Monitors: func(w *mc.World) []mc.Monitor {
-			return []mc.Monitor{&mc.ClientMon{}, c15Mon{}, &mc.SubjectMon{}, &c15Probe{}}
+			return []mc.Monitor{&mc.ClientMon{}, c15Mon{}, &mc.SubjectMon{}, &c15Probe{}, &c15Window{kind: kind, payload: payload}}
 		},
 	}
 	return sc
@@ -407,6 +572,7 @@ func enumC15(tier string, part, parts, skip int, deadline time.Time, note func(i
 	templates := map[string][]string{
 		"ev-change":               {`{"values":{"a":2,"r":{"rid":"test.y"},"d":{"data":{"k":1}},"s":{"rid":"test.z","soft":true},"x":{"action":"delete"}}}`},
 		"ev-change-on-collection": {`{"values":{"a":2}}`},
+		"ev-change-2":             {`{"values":{"a":3,"b":"x"}}`, `{"values":{"a":{"rid":"test.y"},"zz":4}}`},
 		"ev-add":                  {`{"idx":1,"value":{"rid":"test.y"}}`, `{"idx":3,"value":7}`},
 		"ev-add-on-model":         {`{"idx":0,"value":7}`},
 		"ev-remove":               {`{"idx":1}`},
